@@ -389,7 +389,8 @@ func Files(p *Prog) (string, map[string]string, map[string]int) {
 			if f.Mod != k+1 {
 				continue
 			}
-			r.emit(0, "如何"+Name(f.Name)+"？")
+			hl := r.emit(0, "如何"+Name(f.Name)+"？")
+			r.Map[fmt.Sprintf("H%d:%d", k+1, hl)] = hl // header lines of definitions (executed when the file is loaded)
 			r.body(f.Params, f.Body, f.Catches, []int{fi + 1}, 1, true)
 			r.emit(0, "")
 		}
@@ -410,7 +411,9 @@ func program(p *Prog, lmap map[string]int) (string, map[string]int) {
 		r.emit(0, "导入“"+p.Mods[i-1].Name+"”")
 	}
 	for ci, c := range p.Classes {
-		r.emit(0, "定义"+Name(c.Name)+"：")
+		hl := r.emit(0, "定义"+Name(c.Name)+"：") // the definition itself is a statement too
+		r.Map[pathKey([]int{100 * (ci + 1)})] = hl
+		r.Map[fmt.Sprintf("H0:%d", hl)] = hl
 		for _, pr := range c.Props {
 			r.emit(1, "其"+Name(pr.N)+" = "+E(pr.E))
 		}
@@ -420,7 +423,8 @@ func program(p *Prog, lmap map[string]int) (string, map[string]int) {
 		}
 		r.emit(0, "")
 		for _, ct := range c.Ctor {
-			r.emit(0, "如何新建"+Name(c.Name)+"？")
+			hl2 := r.emit(0, "如何新建"+Name(c.Name)+"？")
+			r.Map[fmt.Sprintf("H0:%d", hl2)] = hl2
 			r.body(ct.Params, ct.Body, ct.Catches, []int{100 * (ci + 1)}, 1, true)
 			r.emit(0, "")
 		}
@@ -429,7 +433,9 @@ func program(p *Prog, lmap map[string]int) (string, map[string]int) {
 		if f.Mod != 0 {
 			continue
 		}
-		r.emit(0, "如何"+Name(f.Name)+"？")
+		hl := r.emit(0, "如何"+Name(f.Name)+"？")
+		r.Map[pathKey([]int{fi + 1})] = hl
+		r.Map[fmt.Sprintf("H0:%d", hl)] = hl
 		r.body(f.Params, f.Body, f.Catches, []int{fi + 1}, 1, true)
 		r.emit(0, "")
 	}
